@@ -361,6 +361,13 @@ class Sym(Interp):
                 for nm, a in zip(names[npos:], args[npos:]):
                     kwargs[nm] = a
                 args = args[:npos]
+        # one spelling for reductions: np.sum(x, axis=0) is x.sum(axis=0), np.transpose(x) is x.T (x an array-valued term, not a display)
+        if d in ("numpy.sum", "numpy.all", "numpy.any", "numpy.max", "numpy.min", "numpy.amax", "numpy.amin") and args and \
+                not (isinstance(args[0], tuple) and args[0] and args[0][0] in ("*", "list", "tuple", "comp", "const")) and not isinstance(args[0], TupleV):
+            nm = {"amax": "max", "amin": "min"}.get(d.split(".")[-1], d.split(".")[-1])
+            return self.h_call_method(args[0], nm, n, list(args[1:]), dict(kwargs), env, ctx)
+        if d == "numpy.transpose" and len(args) == 1 and not kwargs and not (isinstance(args[0], tuple) and args[0] and args[0][0] in ("*", "list", "tuple", "comp", "const")):
+            return ("attr", T(args[0]), "T")
         if d in ("any", "all") and len(args) == 1 and not kwargs and isinstance(T(args[0]), tuple) and T(args[0])[0] in ("list", "tuple") and T(args[0])[1]:
             t = ("bool", "or" if d == "any" else "and", tuple(T(args[0])[1]))
             self.fact("call", ctx, n, env, target=d, args=[T(args[0])], kwargs={}, callkind="ext", result=t, rawargs=list(args))
